@@ -641,7 +641,7 @@ def materialise(M, lazy, st):
         return st.alloc(SList(n, lambda k: D.val((Z(k) + Z(lo)) if (is_z3(lo) or lo != 0) else k), D.vtype))
     if tg == 'items':
         d = lazy[1]
-        keys = st.deref(M.list_of_set(d.dom, st))
+        keys = st.deref(M.dict_keys_list(d, st))
         return st.alloc(SList(keys.n, lambda k: (keys.get(k), d.val(keys.get(k))), TTuple(d.dom.elem, d.vtype)))
     if tg == 'combinations':
         _, S, r = lazy
